@@ -362,10 +362,46 @@ fn tamper_eval(t: &TamperTarget, f: &Fault, r: &mut Rng) -> Vec<(String, String)
     out
 }
 
+/// a password: a random marker, often decorated with blanks that a sloppy reader would trim
+fn gen_password(r: &mut Rng) -> String {
+    let m = marker(r, "p");
+    match r.below(8) {
+        0 => format!("{m} "),
+        1 => format!("{m}  \t"),
+        2 => format!(" {m}"),
+        3 => format!("{} {}", &m[..8], &m[8..]),
+        4 => format!("{m}\u{a0}"),
+        _ => m,
+    }
+}
+
+/// the credentials for `pw` through one of the routes the library offers: directly, a password file (with the line
+/// endings a file may have) or a password command; returns the route name for the evidence
+fn credentials_for(r: &mut Rng, pw: &str, dir: &std::path::Path, n: &mut u64) -> Result<(Credentials, &'static str), String> {
+    let route = r.below(4);
+    if route <= 1 {
+        return Ok((Credentials::password(pw), "direct"));
+    }
+    *n += 1;
+    let path = dir.join(format!("pw{n}"));
+    let (ending, name): (&str, &'static str) = *r.pick(&[("\n", "file:lf"), ("\r\n", "file:crlf"), ("", "file:no-eol"), ("\nsecond line\n", "file:two-lines")]);
+    std::fs::write(&path, format!("{pw}{ending}")).map_err(|e| e.to_string())?;
+    let opts = if route == 2 {
+        rustic_core::CredentialOptions::default().password_file(path)
+    } else {
+        let cmd: rustic_core::CommandInput = format!("cat {}", path.display()).parse().map_err(|e| format!("{e:?}"))?;
+        rustic_core::CredentialOptions::default().password_command(cmd)
+    };
+    let c = opts.credentials().map_err(|e| errstr(&e))?.ok_or_else(|| "no credentials".to_string())?;
+    Ok((c, if route == 2 { name } else { "command" }))
+}
+
 /// (d) key management against a set model
 fn key_history(_ctx: &Ctx, case: u64, r: &mut Rng, rep: &mut Report) {
     let uni = Universe::new(1);
-    let pw0 = marker(r, "p");
+    let pw0 = gen_password(r);
+    let tmp = tempfile::tempdir().expect("tempdir");
+    let mut nfile = 0u64;
     let repo = match new_repo(uni.backend(0), None).and_then(|x| x.init(&Credentials::password(&pw0), &KeyOptions::default(), &ConfigOptions::default())) {
         Ok(x) => x,
         Err(e) => {
@@ -385,7 +421,7 @@ fn key_history(_ctx: &Ctx, case: u64, r: &mut Rng, rep: &mut Report) {
         rep.evaluations += 1;
         match r.below(6) {
             0 | 1 if model.len() < 4 => {
-                let pw = marker(r, "p");
+                let pw = gen_password(r);
                 trace.push("add_key".to_string());
                 let (known_pw, _) = model.iter().next().map(|(a, b)| (a.clone(), *b)).unwrap();
                 match new_repo(uni.backend(0), None).and_then(|x| x.open(&Credentials::password(&known_pw))).and_then(|x| x.add_key(&pw, &KeyOptions::default())) {
@@ -411,18 +447,32 @@ fn key_history(_ctx: &Ctx, case: u64, r: &mut Rng, rep: &mut Report) {
             }
             3 => {
                 // wrong passwords: removed ones, near misses, empty
-                let wrong = match r.below(4) {
+                let some_valid = model.keys().next().cloned().unwrap_or_default();
+                let wrong = match r.below(9) {
                     0 => String::new(),
                     1 => format!("{}x", all_pw[0]),
                     2 => all_pw.iter().find(|p| !model.contains_key(*p)).cloned().unwrap_or_else(|| "nope".to_string()),
+                    3 => format!("{some_valid} "),
+                    4 => format!("{some_valid}\t"),
+                    5 => format!(" {some_valid}"),
+                    6 => some_valid.trim().to_string(),
+                    7 => some_valid.trim_end().to_string(),
                     _ => marker(r, "w"),
                 };
                 if model.contains_key(&wrong) {
                     continue;
                 }
+                let (cred, route) = match credentials_for(r, &wrong, tmp.path(), &mut nfile) {
+                    Ok(x) => x,
+                    Err(e) => {
+                        rep.set_add("credential_source_errors", e.chars().take(80).collect::<String>());
+                        continue;
+                    }
+                };
                 trace.push("open(wrong)".to_string());
-                if new_repo(uni.backend(0), None).and_then(|x| x.open(&Credentials::password(&wrong))).is_ok() {
-                    rep.violation(case, "wrong-password-opens", format!("password {wrong:?} is not (or no longer) a key of the repository but opens it"), detail.clone());
+                rep.set_add("password_routes", route.to_string());
+                if new_repo(uni.backend(0), None).and_then(|x| x.open(&cred)).is_ok() {
+                    rep.violation(case, "wrong-password-opens", format!("password {wrong:?} (given via {route}) is not (or no longer) a key of the repository but opens it"), detail.clone());
                 }
             }
             4 => {
@@ -440,8 +490,16 @@ fn key_history(_ctx: &Ctx, case: u64, r: &mut Rng, rep: &mut Report) {
                 // every password of the model opens, and yields the same master key
                 for pw in model.keys() {
                     trace.push("open(valid)".to_string());
-                    match new_repo(uni.backend(0), None).and_then(|x| x.open(&Credentials::password(pw))) {
-                        Err(e) => rep.violation(case, "valid-password-rejected", errstr(&e), detail.clone()),
+                    let (cred, route) = match credentials_for(r, pw, tmp.path(), &mut nfile) {
+                        Ok(x) => x,
+                        Err(e) => {
+                            rep.violation(case, "valid-password-source-failed", format!("password {pw:?}: {e}"), detail.clone());
+                            continue;
+                        }
+                    };
+                    rep.set_add("password_routes", route.to_string());
+                    match new_repo(uni.backend(0), None).and_then(|x| x.open(&cred)) {
+                        Err(e) => rep.violation(case, "valid-password-rejected", format!("password {pw:?} (given via {route}): {}", errstr(&e)), detail.clone()),
                         Ok(repo) => {
                             let k = repo.key();
                             if k.encrypt != master.encrypt || k.mac.k != master.mac.k || k.mac.r != master.mac.r {
@@ -545,7 +603,7 @@ pub fn run(ctx: &Ctx) -> (Report, Meta) {
     rep.merge({ let mut cb = c4.clone(); cb.case_base = 300_000; run_cases(&cb, ctx.tier.pick(4, 60), &|c, i, r, rep| key_history(c, i + 300_000, r, rep)) });
     let meta = Meta {
         level: "exploration",
-        rule: "(a) storage scan after each step of backup/forget/prune/config histories with 16-byte random markers embedded in file contents (incl. a highly compressible file), names, link targets, tags, host name, label, description: no marker and no master-key bytes in any stored file, no non-key file parses as JSON / starts with a zstd frame, every file / blob region / pack trailer authenticates under the master key with the harness's own AES-CTR+Poly1305-AES; (b) all nonces of all stored messages of a history pairwise distinct, plus high-volume H2 runs (equal and random plaintexts of 0..70000 bytes): distinct nonces, independent decryption agrees, bit flip / truncation / extension / wrong key rejected, file and blob codecs round-trip; (c) tamper matrix = C05's file faults (remove, truncations, structural bit flips, extension, sibling replacement) with the oracle 'every read either fails or returns exactly the original content'; (d) key histories (add/delete/open with valid, removed, near-miss, empty passwords and right/wrong master key) against a set model, tampered key files. distinct_nontrivial = distinct class labels (scan config classes, crypto, tamper kinds, key traces)".to_string(),
+        rule: "(a) storage scan after each step of backup/forget/prune/config histories with 16-byte random markers embedded in file contents (incl. a highly compressible file), names, link targets, tags, host name, label, description: no marker and no master-key bytes in any stored file, no non-key file parses as JSON / starts with a zstd frame, every file / blob region / pack trailer authenticates under the master key with the harness's own AES-CTR+Poly1305-AES; (b) all nonces of all stored messages of a history pairwise distinct, plus high-volume H2 runs (equal and random plaintexts of 0..70000 bytes): distinct nonces, independent decryption agrees, bit flip / truncation / extension / wrong key rejected, file and blob codecs round-trip; (c) tamper matrix = C05's file faults (remove, truncations, structural bit flips, extension, sibling replacement) with the oracle 'every read either fails or returns exactly the original content'; (d) key histories (add/delete/open with valid, removed, near-miss, empty passwords - passwords with leading/trailing/inner blanks included, given directly, through a password file with LF/CRLF/no line ending/second line, or through a password command - and right/wrong master key) against a set model, tampered key files. distinct_nontrivial = distinct class labels (scan config classes, crypto, tamper kinds, key traces)".to_string(),
         exhaustive: false,
         assumptions: vec![
             "strength of AES / Poly1305 / scrypt and side channels are out of reach; 'for all keys' is sampled".to_string(),
